@@ -25,7 +25,9 @@ structure World where
   userConfig : Option Nat
   forced : Option Nat          -- --config-path
   noEditorconfig : Bool
-  /-- id of the .editorconfig settings that apply to a file in this directory, if any -/
+  /-- id of the .editorconfig settings that apply to a file in this *lexical* directory, if any: the
+  crate `ec4rs` walks the ancestors of the path as given (`cwd/../x` → `cwd/..` → `cwd` → …), so - like the
+  stylua.toml search (D17) - a file reached through `..` can pick up the working directory's file -/
   editorconfig : RDir → Option Nat
 
 inductive Source
@@ -90,7 +92,7 @@ def resolve (w : World) (dir : RDir) : Source :=
       | some s => s
       | none =>
           if w.noEditorconfig then .default
-          else match w.editorconfig (norm dir) with
+          else match w.editorconfig dir with
             | some id => .editorconfig id
             | none => .default
 
